@@ -39,6 +39,12 @@ class CompilationUnit(EvaluationContext):
         # key.
         self.data = defaultdict(list)
 
+        # Maps each label to the key (in self.data) of the group that
+        # starts with the first DATA statement at or after the
+        # label. Labels after which there is no DATA statement at all
+        # are not in this dictionary.
+        self.data_label_targets = {}
+
     def eval_lvalue(self, lvalue):
         if lvalue.array_indices or lvalue.dotted_vars:
             raise InternalError(
@@ -218,6 +224,7 @@ class Pass1(CompilePass):
     def __init__(self, compilation):
         super().__init__(compilation)
         self._last_label = None
+        self._labels_before_data = []
         self._cur_blocks = []
 
     def process_label_pre(self, node):
@@ -229,6 +236,7 @@ class Pass1(CompilePass):
         node.parent_routine.labels.add(node.name)
         self.compilation.all_labels.add(node.name)
         self._last_label = node.canonical_name
+        self._labels_before_data.append(node.canonical_name)
 
     def process_lineno_pre(self, node):
         if node.canonical_name in self.compilation.all_labels:
@@ -239,6 +247,7 @@ class Pass1(CompilePass):
         node.parent_routine.labels.add(node.canonical_name)
         self.compilation.all_labels.add(node.canonical_name)
         self._last_label = node.canonical_name
+        self._labels_before_data.append(node.canonical_name)
 
     def process_def_type_pre(self, node):
         for letter in node.letters:
@@ -420,6 +429,13 @@ class Pass1(CompilePass):
                 'DATA is illegal in SUB/FUNCTION',
                 node=node)
         self.compilation.data[self._last_label].extend(node.items)
+
+        # all labels seen since the previous DATA statement are
+        # followed by this one, which starts the group of the last of
+        # them.
+        for label in self._labels_before_data:
+            self.compilation.data_label_targets[label] = self._last_label
+        self._labels_before_data = []
 
 
 class Pass2(CompilePass):
